@@ -225,6 +225,14 @@ pub fn run(ctx: &mut Ctx) {
                 };
                 both!("LockTime", LockTime::from_consensus(n));
                 both!("Sequence", Sequence(n));
+                // a free-standing outpoint carries any 32-bit index (the flag bits belong to TxIn)
+                let vout = match ctx.rng.gen_range(0..5) {
+                    0 => 1u32 << 30,
+                    1 => (1u32 << 31) | ctx.rng.gen_range(0..8),
+                    2 => u32::MAX,
+                    _ => n,
+                };
+                both!("OutPoint", OutPoint { txid: Txid::from_byte_array(gen::arr32(&mut ctx.rng)), vout });
                 if n < 500_000_000 {
                     let h = elements::locktime::Height::from_consensus(n).unwrap();
                     both!("locktime::Height", h);
@@ -277,7 +285,46 @@ pub fn run(ctx: &mut Ctx) {
             1 => P(1, 2),
             _ => P(1, 1),
         };
-        let ps = gp::pset(&mut ctx.rng, dens, 2, 2);
+        let mut ps = gp::pset(&mut ctx.rng, dens, 2, 2);
+        if k % 4 == 3 {
+            // raw keys / values whose bytes look like text (hex digits, printable ASCII): a reader
+            // must not reinterpret them
+            let texty = |r: &mut gen::Rg| -> Vec<u8> {
+                let n = 2 * r.gen_range(1..6usize);
+                match r.gen_range(0..3) {
+                    0 => (0..n).map(|_| *gen::pick(r, b"0123456789abcdef")).collect(),
+                    1 => (0..n).map(|_| *gen::pick(r, b"0123456789ABCDEF")).collect(),
+                    _ => (0..n).map(|_| r.gen_range(0x20..0x7fu8)).collect(),
+                }
+            };
+            let mut uk = gp::unknown_key(&mut ctx.rng);
+            uk.key = texty(&mut ctx.rng);
+            let mut pk = gp::prop_key(&mut ctx.rng);
+            pk.key = texty(&mut ctx.rng);
+            if pk.prefix != b"pset" {
+                pk.prefix = texty(&mut ctx.rng);
+            }
+            let (v1, v2) = (texty(&mut ctx.rng), texty(&mut ctx.rng));
+            match ctx.rng.gen_range(0..3) {
+                0 => {
+                    ps.global.unknown.insert(uk, v1);
+                    ps.global.proprietary.insert(pk, v2);
+                }
+                1 if ps.n_inputs() > 0 => {
+                    ps.inputs_mut()[0].unknown.insert(uk, v1);
+                    ps.inputs_mut()[0].proprietary.insert(pk, v2);
+                }
+                _ if ps.n_outputs() > 0 => {
+                    ps.outputs_mut()[0].unknown.insert(uk, v1);
+                    ps.outputs_mut()[0].proprietary.insert(pk, v2);
+                }
+                _ => {
+                    ps.global.unknown.insert(uk, v1);
+                }
+            }
+            ctx.count("psets-with-text-like-raw-pairs");
+        }
+        let ps = ps;
         for i in ps.inputs() {
             ctx.shape(("in", gp::input_shape(i)));
             serde_rt(ctx, "pset::Input", i);
